@@ -611,7 +611,7 @@ UNICODE_EDGES = {
     "astral+bom": "\ufeff\U0001F600\U000E0001",
 }
 # several of them in one text (quick tier)
-UNICODE_COMBOS = ["\ud83d", "x\udc00 \ud83d\ude00 y", "\ufffe\uffff a\x00b \x80\x85\x9f", "a" + "\u0301" * 3000 + " \u202eabc\u202d \ufeff"]
+UNICODE_COMBOS = ["\ud83d", "x\udc00 \ud83d\ude00 \ufffe\uffff a\x00b \x80\x9f \u202eabc\u202d \ufeff y" + "\u0301" * 300]
 
 
 def unicode_edge_texts(mode, tier):
@@ -1126,7 +1126,9 @@ def differential(out, rng, tier, validate_wrapped, extra_cases=()):
     texts = [t for _, t in hostile_corpus() if len(t) <= MAX_COQ_TEXT]
     texts += ["x" * 1200, "bot " + "a" * 1000, "\n" * 800 + "bot b", '"' * 700, "user " * 200, "a\\n" * 300]
     texts += [t for _, t in mutations(rng, 150 if tier == "quick" else 1500)]
-    texts = [t for t in dict.fromkeys(texts) if "\ud800" not in t]
+    texts += [u for u in UNICODE_EDGES.values() if len(u) <= MAX_COQ_TEXT] + [f'  "Result {u}."' for u in UNICODE_EDGES.values() if len(u) <= MAX_COQ_TEXT]
+    texts += ["a" + "\u0301" * 400, "bot \ud83d", "user \udc00\nbot x", "\x85\ud83d\x85"]
+    texts = list(dict.fromkeys(texts))
     terms, kept, seen, hist = [], [], set(), {}
     n_nontrivial = 0
 
@@ -1219,7 +1221,7 @@ def gen_cases(rng, tier):
             if tier == "thorough":
                 pool = [t for _, t in corpus] + [t for _, t in rng.sample(muts, 120)]
             else:
-                pool = list(CORE) + [t for _, t in rng.sample(corpus, 3)] + [t for _, t in rng.sample(muts, 2)]
+                pool = list(CORE) + [t for _, t in rng.sample(corpus, 2)] + [t for _, t in rng.sample(muts, 1)]
             pool += list(dict.fromkeys(LITERAL_TEXTS.values()))
             pool += unicode_edge_texts(mode, tier)
             for t in dict.fromkeys(pool):
